@@ -1,7 +1,8 @@
 def fill(check, na):
     check("C01", "online uid-history oracle (prefix / duplicate-free sub-multiset) on real SCTP stacks under seeded fault schedules in virtual time",
           "Held on the executions produced: every message event of every run is checked against the send log (value, type, "
-          "order, channel). Reach comes from thousands of distinct fault schedules per run; nothing is proved.",
+          "order, channel). Reach comes from thousands of distinct fault schedules per run (a third with TSN spaces starting shortly "
+          "before 2^32; relay cases whose sends suspend for virtual time); nothing is proved.",
           "DTLS layer replaced by a non-suspending stand-in (plus a labelled yielding relay mode); virtual clock substituted for time.time in rtcsctptransport; pyee/crc32c trusted.",
           "DESIGN.md 3/C01")
     check("C02", "bounded-progress oracle at loop quiescence (delivered==sent, bufferedAmount==0, probe burst, livelock by counting) after seeded fault prefixes in virtual time",
@@ -17,7 +18,8 @@ def fill(check, na):
     check("C13", "per-object lifecycle automaton + datachannel-event matcher + bufferedAmount shadow evaluated at every event/API call, close-completion and id-reuse obligations at quiescence; generated create/send/close programs under seeded fault schedules in virtual time",
           "Held on the executions produced: every readyState sample, every datachannel/open/close/bufferedamountlow event and every "
           "bufferedAmount reading of every channel object is checked online against a small automaton and a byte-count shadow; at "
-          "post-heal quiescence close() must have closed both ends and freed the id. Three mechanisms are listed known findings.",
+          "post-heal quiescence close() must have closed both ends and freed the id (close() may also come from inside the open "
+          "handler). Two mechanisms are listed known findings.",
           "Same rig as C01. bufferedAmount equality is evaluated while the channel is open and no hand-over is suspended (relay mode). Known findings are suppressed by mechanism classifiers over the witness, see known_findings.json.",
           "DESIGN.md 3/C13")
     check("C07", "round-trip / field-semantics oracles on generated RTP and RTCP values through the real builders and parsers, icontract post-conditions on the packing helpers",
@@ -26,25 +28,27 @@ def fill(check, na):
           "with the (single lost, follower distance 1..17) NACK grid enumerated in slices.",
           "Values are generated inside the wire ranges; padding bytes are random by design and not compared; extensions not configured in the id map are not expected to survive.",
           "DESIGN.md 3/C07")
-    check("C08", "round-trip oracle on generated chunks of every class through serialize_packet/parse_packet + bit-burst injection (every position x every length 1..32) with a counting wrapper on the chunk constructors",
+    check("C08", "round-trip oracle on generated chunks of every class through serialize_packet/parse_packet + bit-burst injection (every position x every length 1..32, plus bursts aimed at the checksum field) with a counting wrapper on the chunk constructors; re-serialisation after field changes; chunk-to-wire conformance monitor on running SCTP associations (fields of every chunk handed to _send_chunk vs the datagram on the link)",
           "Held on the packets and bursts generated: every chunk class round-trips field-equal and byte-identical; every injected "
           "burst is rejected with the checksum error before any chunk constructor runs. Positions and lengths are enumerated per "
-          "sampled packet; interiors are sampled except for short bursts on short packets (all interiors, exhaustive sub-space).",
+          "sampled packet; interiors are sampled except for short bursts on short packets (all interiors, exhaustive sub-space). "
+          "Every chunk a running association put on the wire in the lossy mixed-reliability programs parsed back to the fields it was built with.",
           "google-crc32c trusted; the full space of packets x bursts is sampled, never exhausted.",
           "DESIGN.md 3/C08")
     check("C16", "lossless-round-trip and size-limit oracles on the real packetisers (H264Encoder._packetize/pack, Vp8Encoder._packetize/pack) through the real depayloaders, plus an independent RFC 6184 payload reader",
           "Held on the inputs generated: every payload is <= 1300 bytes and depacketising reproduces the bitstream byte for byte; "
-          "FU-A / STAP-A / VP8 descriptor structure is checked by an independent reader. Single-NAL sizes 2..5200, VP8 sizes "
+          "FU-A / STAP-A / VP8 descriptor structure is checked by an independent reader; two packetisations interleaved at a NAL "
+          "boundary give the same output as one after the other. Single-NAL sizes 2..5200, VP8 sizes "
           "0..5200 and all 15-bit picture ids are enumerated completely; longer sequences are sampled around the fragment-size multiples.",
           "NAL bodies are Annex-B clean; PyAV trusted for av.Packet.",
           "DESIGN.md 3/C16")
     check("C10", "invariant + history oracle on the real JitterBuffer: unique arrival ids as packet data, frame integrity / no-reuse / order / PLI-on-discard / occupancy checked after every add(), completeness against the generated stream for benign histories",
           "Held on the histories generated: every released frame is decoded back to the arrivals it was built from and checked; "
-          "ring occupancy and PLI obligations are evaluated around every add(). Histories are sampled over capacities, prefetch, "
+          "ring occupancy and PLI obligations are evaluated around every add(); padding-only packets are part of the streams. Histories are sampled over capacities, prefetch, "
           "audio/video and fault modes; all arrival permutations of 5-6 packets with <= 1 duplicate at capacity 4 are enumerated.",
           "Lateness is measured against the highest sequence number seen; ring contents are read from the private _packets attribute for the PLI/occupancy clauses.",
           "DESIGN.md 3/C10")
-    check("C12", "reference-model monitor: the real RtpRouter is compared after every operation with a small executable router written from the statement, plus a tombstone check (nothing unregistered is ever returned)",
+    check("C12", "reference-model monitor: the real RtpRouter is compared after every operation with a small executable router written from the statement, plus a tombstone check (nothing unregistered is ever returned); the same histories behind a real RTCDtlsTransport object incl. compound RTCP and unregistration from inside a handler",
           "Held on the histories generated: every route_rtp / route_rtcp return value of every history equals the reference "
           "router's. Random histories of 20-200 operations over overlapping SSRC / payload-type sets; all histories up to length "
           "4 (quick) / 5 (thorough) over a 21-symbol alphabet on 2 receivers x 2 payload types x 2 SSRCs are enumerated.",
@@ -59,9 +63,9 @@ def fill(check, na):
     check("C18", "reference-model monitor: the real StreamStatistics is compared after every packet and at every report point with an RFC 3550 A.1/A.3/A.8 model in Python integers; the real RTCRtpReceiver._run_rtcp is driven in virtual time and every RR on the wire is compared with the model",
           "Held on the arrival histories generated: counters, cumulative loss, extended highest sequence number and jitter agree "
           "with the model after every add(); fraction lost at every report; every report serialises and parses back; the RTCP "
-          "task survives. Histories are sampled (loss, duplication, reordering, sequence cycles, timestamp wrap, hostile "
+          "task survives; getStats() between reports shows the same figures and does not disturb the next report. Histories are sampled (loss, duplication, reordering, sequence cycles, timestamp wrap, hostile "
           "timestamps, clock jumps).",
-          "Arrival clock = scripted replacement of time.time() in the receiver module; clock jumps <= 4 h; report path behind a stub transport (no DTLS).",
+          "Arrival clock = scripted replacement of time.time() in the receiver module (epochs 0, present day, shortly before clock x rate crosses a multiple of 2^32); clock jumps <= 4 h; report path behind a stub transport (no DTLS).",
           "DESIGN.md 3/C18")
     check("C17", "metamorphic monitor: same program / arrival pattern and same fault decisions run with small and with wrapping sequence-number origins, observable traces compared; RFC 1982 oracle on the serial-number helpers (whole rows, all 2^32 16-bit pairs in the thorough tier)",
           "Held on the paired runs produced: delivery traces with virtual timestamps, channel events, drain verdicts (SCTP), released "
@@ -75,42 +79,46 @@ def fill(check, na):
           "texts are idempotent after one round; candidate lines and the signalling helper round-trip exactly. Sampled.",
           "Connection addresses are IP literals except a dedicated host-name mutation; a parser rejection of a mutated text is not judged.",
           "DESIGN.md 3/C09")
-    check("C14", "automaton monitor: a 4-state JSEP model per peer gives the admissible outcome of every signalling call on real RTCPeerConnection pairs; state, descriptions and signalingstatechange events are compared after every call; all sequences up to a length bound are enumerated",
+    check("C14", "automaton monitor: a 4-state JSEP model per peer gives the admissible outcome of every signalling call on real RTCPeerConnection pairs; state, descriptions and signalingstatechange events are compared after every call; all sequences up to a length bound are enumerated; two calls in flight are checked for linearizability against the same automaton",
           "Held on the call sequences executed: every call's outcome (success / InvalidStateError / ValueError) and the resulting "
           "signalingState agree with the automaton; rejected calls leave state and both descriptions unchanged and fire no event. "
           "Exhaustive for all sequences up to length 3 (quick) / 4 (thorough) over 20 symbols on one media shape, random longer "
-          "sequences over four shapes.",
-          "Real aioice gathering (real time), no connectivity awaited; createOffer in have-remote-offer accepted either way.",
+          "sequences over four shapes. Overlapping calls: two mechanisms of the unchanged tree are listed known findings.",
+          "Real aioice gathering (real time), no connectivity awaited; createOffer in have-remote-offer accepted either way; overlapping invocations are read as being in scope of 'any sequence of calls'.",
           "DESIGN.md 3/C14")
     check("C03", "history/structure oracles on real RTCPeerConnection pairs over generated configurations: exceptions and signalling states of the legal call sequence, independent SDP reader for answer-mirrors-offer, complementary directions, then observed connectivity (transport states, data channels opening and carrying uid messages) in real time",
           "Held on the configurations executed: each negotiation succeeded, the answer mirrors the offer and only selects what "
           "was offered, directions are complementary, every negotiated transport connected and every negotiated data channel "
-          "carried a message each way, also after a follow-up round. Configurations are sampled from the product space; the "
+          "carried a message each way and, when reliable, a burst of empty / non-ASCII / multi-fragment / binary messages exactly once and in order, also after a follow-up round. Configurations are sampled from the product space; the "
           "small sub-space is enumerated in the thorough tier.",
-          "Real aioice over local UDP in real time; answerer codec preferences cannot empty the intersection; a transport still connecting at the 20 s cap is inconclusive.",
+          "Real aioice over local UDP in real time; answerer codec preferences cannot empty the intersection; one DTLS handshake datagram is lost in a third of the cases; wall-clock caps decide only when a heartbeat shows the event loop was alive, otherwise the case is inconclusive.",
           "DESIGN.md 3/C03")
     check("C19", "step-indexed close() injection on real RTCPeerConnection pairs (every event-loop step of the scenario is a candidate instant), completion decided by heartbeat + await-chain analysis, then state / channel / track / late-event / leftover-task and thread monitors",
           "Held on the runs executed: close() completed, a second close() was a no-op, the three states were 'closed', every data "
           "channel handed out was closed, received tracks ended for a consumer, no event fired afterwards and no aiortc/aioice "
           "task or decoder thread was left. Instants are a stratified sample of the scenario's event-loop steps (all steps for some "
-          "configurations in the thorough tier); six close modes.",
+          "configurations in the thorough tier); seven close modes; strata with trickle-style signalling (candidates late / never), "
+          "ICE failing before close and a remote SCTP ABORT followed by one more channel.",
           "Real aioice over local UDP in real time; step numbering varies slightly with network timing; a close() pending at the cap while waiting on a timer/socket is inconclusive.",
           "DESIGN.md 3/C19")
     check("C11", "closed-loop history oracle: real RTCRtpSender -> fault links -> real RTCRtpReceiver in virtual time with a decoder tap; every handed-over frame is matched byte for byte against the sent frames (uid payloads), NACK/RTX obligations are checked against the link's drop log",
           "Held on the runs produced: every frame handed to the decoder was a sent frame (or a legitimate tail after start / PLI), "
           "in order, once; every packet lost while requests and retransmissions got through was NACKed and resent (RTX when "
-          "negotiated) and every frame of that phase was delivered; NACKs stayed within the 128-packet history. Fault schedules, "
+          "negotiated) and every frame of that phase was delivered; NACKs stayed within the 128-packet history. A monitor on the real "
+          "JitterBuffer attributes replays / thrown-away frames to restarts by packets >= 100 late (listed known finding). Fault schedules, "
           "frame sizes, codecs, RTX and sequence/timestamp origins (incl. wrap) are sampled.",
           "DTLS/SRTP bypassed (C04 covers them); decoder thread replaced by a synchronous tap; virtual time.",
           "DESIGN.md 3/C11")
     check("C04", "specification predicate + delivery monitors on real RTCDtlsTransport pairs (real OpenSSL handshake and SRTP): connect-iff-verified over the class-reduced fingerprint matrix, recording receivers registered before start(), uid traffic and bit-flip tampering for every SRTP profile list x role cell",
           "Held on the handshakes executed: a side reached 'connected' exactly when its fingerprint list verifies the peer "
-          "(harness-side predicate), nothing was delivered on a side that was not connected, and for every SRTP profile / role "
+          "(harness-side predicate; lists naming one hash twice included), nothing was delivered on a side that was not connected - also "
+          "when an eager server's first application record shares a datagram with its last handshake flight - a side that refused "
+          "its peer emitted nothing when asked to send, and for every SRTP profile / role "
           "cell all RTP, RTCP and data units arrived byte-identical while nothing altered in transit was delivered. The "
           "class-reduced matrices are enumerated across a run; payloads and bit positions are sampled.",
           "OpenSSL / pyOpenSSL / libsrtp trusted; in-memory ICE stand-in without loss during the handshake.",
           "DESIGN.md 3/C04")
-    check("C05", "contract + step-budget monitor (sys.monitoring) on the wire parsers; hostile well-formed datagrams into a real SCTP association in several states and into a real connected DTLS transport with real receiver / sender, followed by a fresh-traffic probe",
+    check("C05", "contract + step-budget monitor (sys.monitoring) on the wire parsers; hostile datagrams (adversarial fields, and well-formed ones out of context: verbatim replays, ABORT, matching RE-CONFIG responses) into a real SCTP association in several states and into a real connected DTLS transport with real receiver / sender, followed by a fresh-traffic probe",
           "Held on the inputs generated: every parser returned or raised ValueError within a step budget proportional to the input; "
           "no exception escaped the SCTP receive path, associations stayed usable, rejected datagrams changed nothing; a real DTLS "
           "transport stayed 'connected' and delivered valid media and data afterwards. Inputs are random, mutated and "
